@@ -1,0 +1,37 @@
+/*
+Copyright 2011-2025 Frederic Langlet
+Licensed under the Apache License, Version 2.0 (the "License");
+you may not use this file except in compliance with the License.
+you may obtain a copy of the License at
+
+                http://www.apache.org/licenses/LICENSE-2.0
+
+Unless required by applicable law or agreed to in writing, software
+distributed under the License is distributed on an "AS IS" BASIS,
+WITHOUT WARRANTIES OR CONDITIONS OF ANY KIND, either express or implied.
+See the License for the specific language governing permissions and
+limitations under the License.
+*/
+
+package io
+
+// Protocol points reported to the verification hook (see verif_hooks_on.go).
+// With the build tag 'verif' off, verifAt is an empty function.
+const (
+	VERIF_ENC = 0 // encoding task
+	VERIF_DEC = 1 // decoding task
+
+	VERIF_START       = 0  // task started
+	VERIF_PRE_LOAD    = 1  // about to load the shared block id (spin loop)
+	VERIF_POST_LOAD   = 2  // shared block id loaded
+	VERIF_IO_BEGIN    = 3  // token acquired, about to access the shared bitstream
+	VERIF_IO_END      = 4  // done with the shared bitstream
+	VERIF_PRE_PUB     = 5  // about to publish the block id (compare-and-swap)
+	VERIF_POST_PUB    = 6  // publish attempted
+	VERIF_PRE_CANCEL  = 7  // about to store the cancel value
+	VERIF_POST_CANCEL = 8  // cancel stored
+	VERIF_WORK        = 9  // in the concurrent (post hand-off) part of a decoding task
+	VERIF_EXIT        = 10 // task about to signal completion
+	VERIF_BATCH_BEGIN = 11 // processBlock: about to spawn a batch (id = first block id - 1)
+	VERIF_BATCH_END   = 12 // processBlock: all tasks of the batch joined
+)
